@@ -17,7 +17,7 @@ func init() {
 	property("C12",
 		"Static conformance of poryswitch selection: (a) every selector returns, for each case map, the entry under the -s value when that key is present and otherwise the entry under '_' (presence decided by the comma-ok bit, not by the value), parallel maps with the same key sequence, and fails under enableEnvironmentErrors when neither exists; (b) the header takes the value from compileSwitches[identifier] and errors for missing switches only under enableEnvironmentErrors; (c) parsing the cases can write only the token window, the scope stacks and the font cache of the Parser — nothing an unselected case produced can reach the program except through the case map; (d) '-s K=V' splits at the first '='.",
 		[]string{"scheme argument of DESIGN §4 C12", "balanced scope stacks (C20.a)"},
-		"C12.a", "C12.b", "C12.c", "C12.d", "C12.e", "C09.d", "C06.c", "C12.f", "C12.g", "C01.h", "C17.f")
+		"C12.a", "C12.b", "C12.c", "C12.d", "C12.e", "C09.d", "C06.c", "C12.f", "C12.g", "C01.h", "C17.f", "C17.g")
 	property("C13",
 		"Static conformance of constant substitution: (a) every token literal that is accumulated into an argument, operand, comparison value, case value, table-entry field, mart item or constant value passes through tryReplaceWithConstant (the only exceptions are literal parentheses); (b) names (identifiers, labels, map script names, movement steps) and text are never passed through it; (c) a constant is stored only after the duplicate check, its value is scanned up to the next top-level keyword; (d) the helper is a pure lookup that returns its argument when the name is not a constant.",
 		[]string{"that textual and token-wise replacement coincide for multi-token values is not decided"},
@@ -25,7 +25,7 @@ func init() {
 	property("C14",
 		"Static conformance of list handling: (a) a movement multiplier is accepted exactly in [1, 9999], must be an INT, and expands to exactly that many copies; (b) the movement emitter writes the terminator exactly once on every path and nothing after it; (c) the mart emitter writes '.align 2' first, stops at the first item equal to ITEM_NONE — tested on the very value it would write — and writes the terminator once, unconditionally, after the loop; items and their tokens are parallel; (d) list parsers append each identifier once and advance on every iteration.",
 		[]string{"go/ssa lowering is faithful to the source"},
-		"C14.a", "C14.b", "C14.c", "C14.d", "C06.b", "C12.f", "C12.g", "C13.c", "C12.a")
+		"C14.a", "C14.b", "C14.c", "C14.d", "C06.b", "C12.f", "C12.g", "C13.c", "C12.a", "C10.f")
 
 	register(&Rule{ID: "C12.f", Doc: "every parsed poryswitch case is recorded under its own name, whatever its content", Floor: 5, Run: c12f})
 	register(&Rule{ID: "C13.e", Doc: "no decision depends on how many tokens a substituted value was written with", Floor: 1, Run: c13e})
@@ -349,6 +349,33 @@ func c12d(c *Ctx) {
 			}
 		})
 	}
+	// the switch values that reach the parser are the ones given on the command line: nothing in
+	// package main rewrites the map after (or besides) Set
+	nOther := 0
+	for _, f := range c.W.FuncsOf("") {
+		if isTestFunc(c.W, f) || f == fn {
+			continue
+		}
+		instrs(f, func(in ssa.Instruction) {
+			mu, isMU := in.(*ssa.MapUpdate)
+			if !isMU {
+				return
+			}
+			mt, isMap := mu.Map.Type().Underlying().(*types.Map)
+			if !isMap || !types.Identical(mt.Key(), types.Typ[types.String]) || !types.Identical(mt.Elem(), types.Typ[types.String]) {
+				return
+			}
+			nOther++
+			c.Bad("switch-map/written-outside-Set/"+c.W.FuncKey(f), c.W.Pos(mu.Pos()), f.Name()+" rewrites a string map of the command line after it was parsed: the switch values the parser selects cases with would no longer be the ones given with -s")
+		})
+		for _, ci := range callsIn(f) {
+			if calleeName(ci) == "builtin:delete" {
+				nOther++
+				c.Bad("switch-map/written-outside-Set/"+c.W.FuncKey(f), c.W.Pos(ci.Pos()), f.Name()+" deletes from a map of the command line")
+			}
+		}
+	}
+	c.Check(nOther == 0, "switch-map/only-Set-writes", c.W.FuncPos(fn), "only mapOption.Set writes the -s map", "the -s map is rewritten outside Set")
 	c.Check(ok && okStore, "mapOption.Set", c.W.FuncPos(fn), "K=V split at the first '=' (value may contain '='), anything else rejected", "-s values are not split at the first '=' (strings.SplitN(value, \"=\", 2) with a length check, or strings.Index with a negative-index check)")
 }
 
